@@ -31,6 +31,13 @@ sys.path.insert(0, os.path.join(ROOT, "stubs"))
 sys.path.insert(0, os.environ.get("PYVC_REPO", "/repo"))
 logging.disable(logging.CRITICAL)
 
+from nostr_relay.config import Config  # noqa: E402
+
+# a small configured cap, set BEFORE the storage modules are imported (NostrQuery.limit and BaseSubscription.default_limit read
+# Config.max_limit when their modules are loaded, as they do in a relay started with this value in its configuration file)
+MAXL = 2
+Config.max_limit = MAXL
+
 import lmdb  # noqa: E402  (the stand-in)
 from aionostr.event import Event  # noqa: E402
 from nostr_relay.storage import kv  # noqa: E402
@@ -92,7 +99,7 @@ BASES = [
     {"#e": ["A"]}, {"#e": [META]}, {"#e": ["\u00e9\u4e2d"]}, {"#e": ["a"], "#p": [PK["0"]]}, {"#e": ["a", "b"], "#p": [PK["0"]]}, {"#e": ["a", "A"]},
     {"ids": [ID0]}, {"ids": [IDF]}, {"ids": [ID0, IDF]}, {"ids": [ID0], "kinds": [1]}, {"ids": [ID0], "kinds": [2]},
 ]
-LIMITS = [None, 0, 1, 2]
+LIMITS = [None, 0, 1, 2, 5]          # None: no "limit" key; 5: above the configured cap of 2
 
 
 PAIRBASE = [{"kinds": [1]}, {"kinds": [2]}, {"authors": [PK["7"]]}, {"#e": ["a"]}, {"ids": [ID0]}, {"since": 15}]
@@ -314,8 +321,14 @@ def check_store(store):
         base = {"filter": f, "store": describe(evs), "returned": [i[:2] + ".." + i[-2:] for i in ids]}
         if extra:
             fails.append(("C01", "returns-non-matching", dict(base, extra=len(extra)), f, store))
-        if missing:
+        if missing and len(may) <= MAXL:
             fails.append(("C02", "missing", dict(base, missing=[i[:2] + ".." + i[-2:] for i in sorted(missing)]), f, store))
+        if len(ids) > MAXL:
+            fails.append(("C12", "more-than-configured-cap", dict(base, cap=MAXL), f, store))
+        if len(may) > MAXL and ids:
+            left0 = [e for e in evs if e.id in must and e.id not in ids]
+            if any(e.created_at > min(x.created_at for x in got) for e in left0):
+                fails.append(("C12", "not-newest", dict(base, limit=None, sent=[i[:2] + ".." + i[-2:] for i in ids]), f, store))
         if dup:
             fails.append(("C02", "twice", dict(base, twice=[i[:2] + ".." + i[-2:] for i in sorted(dup)]), f, store))
         # C12: limits
@@ -323,15 +336,23 @@ def check_store(store):
             gl = be.query(f, lim)
             ncases += 1
             gids = [e.id for e in gl]
-            if len(gids) > lim:
-                fails.append(("C12", "more-than-limit", dict(base, limit=lim, returned_l=len(gids)), f, store))
+            if len(gids) > min(lim, MAXL):
+                fails.append(("C12", "more-than-limit", dict(base, limit=lim, cap=MAXL, returned_l=len(gids)), f, store))
             sent_ts = [e.created_at for e in gl]
             if sent_ts:
                 left = [e for e in evs if e.id in must and e.id not in gids]
                 if any(e.created_at > min(sent_ts) for e in left):
                     fails.append(("C12", "not-newest", dict(base, limit=lim, sent=[i[:2] + ".." + i[-2:] for i in gids]), f, store))
-            if len(must) <= lim and len(may) == len(must) and not missing and set(gids) != set(ids):
+            if len(must) <= min(lim, MAXL) and len(may) == len(must) and not missing and set(gids) != set(ids):
                 fails.append(("C12", "truncates-under-limit", dict(base, limit=lim), f, store))
+    # an explicit "limit": null must not lift the configured cap
+    for fi, f in enumerate(F):
+        if fi % 8:
+            continue          # the unwindowed variant of every base filter
+        gn = be.query_multi([dict(f, limit=None)])
+        ncases += 1
+        if len(gn) > MAXL:
+            fails.append(("C12", "null-limit-exceeds-cap", {"filter": dict(f, limit=None), "store": describe(evs), "returned": len(gn), "cap": MAXL}, f, store))
     # several filters in one REQ (C02: between one and k times; C12: each filter's own limit)
     for (fa, la), (fb, lb) in PAIRS:
         qa, qb = dict(fa), dict(fb)
@@ -351,13 +372,17 @@ def check_store(store):
             if ids.count(i) > (i in mays[0]) + (i in mays[1]):
                 fails.append(("C02", "multi-more-than-k-times", base, qa, store))
         for k, lim in ((0, la), (1, lb)):
-            if (lim is None or len(mays[k]) <= lim) and musts[k] - set(ids):
+            lim = MAXL if lim is None else min(lim, MAXL)
+            if len(mays[k]) <= lim and musts[k] - set(ids):
                 fails.append(("C02", "multi-missing-under-own-limit", dict(base, which=k), (qa, qb)[k], store))
             only = [i for i in ids if i in mays[k] and i not in mays[1 - k]]
-            if lim is not None and len(set(only)) > lim:
+            if len(set(only)) > lim:
                 fails.append(("C12", "multi-more-than-own-limit", dict(base, which=k), (qa, qb)[k], store))
     # C11 monotone / union on this store
+    nmay = [sum(1 for e in evs if oracle_fields(f, e) and in_window(f, e, False)) for f in F]
     for fi, f in enumerate(F):
+        if nmay[fi] > MAXL:
+            continue      # "when no limit truncates": the configured cap cuts this answer, relations between answers do not apply
         for fj in STRONGER[fi]:
             if not set(res[fj]) <= set(res[fi]):
                 fails.append(("C11", "stronger-filter-returns-more", {"filter": f, "stronger": F[fj], "store": describe(evs)}, F[fj], store))
@@ -432,6 +457,9 @@ def main():
     sys.path.insert(0, ROOT)
     t0 = time.time()
     stores = [s for n in range(0, a.max_store + 1) for s in itertools.combinations(range(len(U)), n)]
+    if a.max_store < 3:
+        # a few stores with more matching events than the configured cap, so that the cap itself is exercised in the quick tier
+        stores += [(0, 1, 18), (6, 7, 12), (20, 21, 26), (0, 6, 12), (20, 26, 28)]
     cases = 0
     nontrivial = 0
     classes = {}
